@@ -138,7 +138,7 @@ class Ctx:
             return thorough
         if self.fallbacks and isinstance(quick, int) and isinstance(thorough, int) and thorough > quick:
             # the tie by translation is gone: the correspondence carries it alone, so run more of it
-            return min(thorough, 4 * quick)
+            return min(thorough, 2 * quick)
         return quick
 
     def count(self, key, n=1):
@@ -552,8 +552,8 @@ def zlist(xs):
 # implementation - and that is what a check falls back to: coq/ref/ holds the model parts generated from
 # the tree the proofs were written for (committed; refreshed by tools/mkref.py); when translation fails, or
 # succeeds but the proofs no longer go through on its output, the reference copy is put in place, the proofs
-# are re-checked on it and the model-vs-implementation correspondence and the direct search run at four
-# times their quick size.  Only if those find a disagreement is there a violation (with its input); if they
+# are re-checked on it and the model-vs-implementation correspondence and the direct search run at twice
+# their quick size.  Only if those find a disagreement is there a violation (with its input); if they
 # cannot run at all the old verdict stands (VIOLATION ... no-failing-input-found).  Every fall-back taken is
 # printed (TIE-FALLBACK ...) and recorded in the evidence.
 
